@@ -18,8 +18,6 @@ type comparison =
 | Lt
 | Gt
 
-val compOpp : comparison -> comparison
-
 val add : nat -> nat -> nat
 
 val mul : nat -> nat -> nat
@@ -28,20 +26,12 @@ val sub : nat -> nat -> nat
 
 module Nat :
  sig
-  val eqb : nat -> nat -> bool
-
   val leb : nat -> nat -> bool
 
   val ltb : nat -> nat -> bool
-
-  val max : nat -> nat -> nat
  end
 
 val nth : nat -> 'a1 list -> 'a1 -> 'a1
-
-val rev : 'a1 list -> 'a1 list
-
-val concat : 'a1 list list -> 'a1 list
 
 val map : ('a1 -> 'a2) -> 'a1 list -> 'a2 list
 
@@ -49,13 +39,9 @@ val fold_left : ('a1 -> 'a2 -> 'a1) -> 'a2 list -> 'a1 -> 'a1
 
 val existsb : ('a1 -> bool) -> 'a1 list -> bool
 
-val forallb : ('a1 -> bool) -> 'a1 list -> bool
-
 val filter : ('a1 -> bool) -> 'a1 list -> 'a1 list
 
 val firstn : nat -> 'a1 list -> 'a1 list
-
-val skipn : nat -> 'a1 list -> 'a1 list
 
 val seq : nat -> nat -> nat list
 
@@ -204,19 +190,7 @@ module Z :
 
   val sub : z -> z -> z
 
-  val mul : z -> z -> z
-
-  val compare : z -> z -> comparison
-
-  val leb : z -> z -> bool
-
-  val ltb : z -> z -> bool
-
   val eqb : z -> z -> bool
-
-  val max : z -> z -> z
-
-  val min : z -> z -> z
 
   val to_nat : z -> nat
 
@@ -225,19 +199,7 @@ module Z :
   val of_nat : nat -> z
 
   val of_N : n -> z
-
-  val pos_div_eucl : positive -> z -> z * z
-
-  val div_eucl : z -> z -> z * z
-
-  val div : z -> z -> z
-
-  val modulo : z -> z -> z
  end
-
-val pANIC : z
-
-val nOFUEL : z
 
 val bADCASE : z
 
@@ -247,13 +209,7 @@ val bz : z -> bool
 
 val put_list : z list -> z list
 
-val get_list : z list -> z list * z list
-
 val of_Ns : n list -> z list
-
-val hd0 : z list -> z
-
-val nthz : z list -> nat -> z
 
 val upd : n list -> nat -> n -> n list
 
@@ -372,141 +328,5 @@ val dec_op : z -> z -> z -> op option
 val dec_ops : nat -> z list -> op list option
 
 val entry : z -> z list -> z list
-
-val runeError : z
-
-val encode : z -> z list
-
-val cont : z -> bool
-
-val inr : z -> z -> z -> bool
-
-val decode : z list -> z * nat
-
-val width : z list -> nat
-
-val encode_rune : z -> z list
-
-val decode_all_fuel : nat -> z list -> (z * nat) list
-
-val decode_all : z list -> (z * nat) list
-
-val runes : z list -> z list
-
-val valid_utf8 : z list -> bool
-
-type res =
-| Ret of z list
-| Panic
-| Stuck
-
-val two63 : z
-
-val two64 : z
-
-val maxint : z
-
-val wrap64 : z -> z
-
-val alloc_limit : z
-
-val zlen : z list -> z
-
-val sl : z list -> nat -> nat -> res
-
-val bind : res -> (z list -> res) -> res
-
-val adv : z list -> nat
-
-val chunks_fuel : nat -> z list -> z list list
-
-val chunks : z list -> z list list
-
-val clampn : z -> 'a1 list -> nat
-
-val firstz : z -> 'a1 list -> 'a1 list
-
-val skipz : z -> 'a1 list -> 'a1 list
-
-val count_go : nat -> z list -> z -> z
-
-val rune_count_z : z list -> z
-
-val len0 : z list -> z
-
-val sub_go : z list -> z -> z -> nat -> nat -> z -> z -> res
-
-val sub0 : z list -> z -> z -> res
-
-val spec_sub : z list -> z -> z -> z list
-
-val repeat_str : z list -> z -> res
-
-val idx_go :
-  z list -> z -> z -> nat -> nat -> z -> nat -> nat -> (nat * nat) option
-
-val mask1 : z list -> z list -> z -> z -> res
-
-val spec_mask : z list -> z list -> z -> z -> z list
-
-val disp : z -> z
-
-val sbd_go : z list -> z -> nat -> nat -> z -> res
-
-val sub_by_display : z list -> z -> res
-
-val cdisp : z list -> z
-
-val fit : z list list -> z -> z list list
-
-val spec_sub_by_display : z list -> z -> z list
-
-val rev_str : z list -> z list
-
-val spec_rev : z list -> z list
-
-val rr_go : (z -> bool) -> z list -> nat -> nat -> bool -> z list -> res
-
-val remove_runes : (z -> bool) -> z list -> res
-
-val crune : z list -> z
-
-val spec_remove_runes : (z -> bool) -> z list -> z list
-
-val uc_first : z list -> z list
-
-val lc_first : z list -> z list
-
-val wr : z list -> z list -> nat -> nat -> res
-
-val s2c_go : z list -> nat -> nat -> nat -> bool -> z list -> res
-
-val snake_to_camel : z list -> bool -> res
-
-val c2s_go : z list -> nat -> nat -> nat -> z list -> res
-
-val camel_to_snake : z list -> res
-
-val lower : z -> bool
-
-val digit : z -> bool
-
-val ident_go : z list -> bool -> bool
-
-val ident : z list -> bool
-
-val get_int : z list -> z * z list
-
-val enc_res : res -> z list
-
-val pred : z -> z -> z -> bool
-
-val roundtrip : z list -> bool -> res
-
-val run_model : z -> z list -> z list
-
-val run_spec : z -> z list -> z list
-
-val entry0 : z -> z list -> z list
 
 val dispatch : z -> z -> z list -> z list
